@@ -57,6 +57,18 @@ def mw_table(bib):
     for kb, kmm in itertools.product([True, False], [True, False]):
         add(f"LatexDecodingMiddleware(keep_braced_groups={kb},keep_math_mode={kmm})",
             lambda kb=kb, kmm=kmm: m.LatexDecodingMiddleware(keep_braced_groups=kb, keep_math_mode=kmm, allow_inplace_modification=False))
+    # user-supplied converters (the option resets nothing else: copy mode stays copy mode)
+    def enc():
+        from pylatexenc.latexencode import UnicodeToLatexEncoder
+        return UnicodeToLatexEncoder()
+
+    def dec():
+        from pylatexenc.latex2text import LatexNodes2Text
+        return LatexNodes2Text()
+    add("LatexEncodingMiddleware(encoder=own)", lambda: m.LatexEncodingMiddleware(encoder=enc(), allow_inplace_modification=False))
+    add("LatexDecodingMiddleware(decoder=own)", lambda: m.LatexDecodingMiddleware(decoder=dec(), allow_inplace_modification=False))
+    for c in ("SeparateCoAuthors", "SplitNameParts", "MergeCoAuthors", "MergeNameParts"):
+        add(f"{c}(name_fields=editor)", lambda c=c: getattr(m, c)(allow_inplace_modification=False, name_fields=("editor",)))
     for c in ("MonthIntMiddleware", "MonthAbbreviationMiddleware", "MonthLongStringMiddleware", "SeparateCoAuthors",
               "SplitNameParts", "MergeCoAuthors", "SortFieldsAlphabeticallyMiddleware", "NormalizeFieldKeys"):
         add(c, lambda c=c: getattr(m, c)(allow_inplace_modification=False))
